@@ -785,9 +785,45 @@ def reuse_decode(path, first, second):
     return ("ok", got, bytes(pdu.pduData))
 
 
+def reuse_decode_typed(first, second):
+    """Two frames of one PDU type decoded one after the other into ONE typed PDU object (through a fresh generic APDU
+    each, as the stack does), then encoded again.  -> ("ok", fields, payload, octets) | ("raises", name)"""
+    try:
+        p = None
+        for data in (first, second):
+            a = bp.APDU()
+            a.decode(PDU(data))
+            if p is None:
+                p = bp.apdu_types[a.apduType]()
+            p.decode(a)
+        got = read_fields(p)
+        out = bp.APDU()
+        p.encode(out)
+        pdu = PDU()
+        out.encode(pdu)
+    except Exception as err:
+        return ("raises", type(err).__name__)
+    return ("ok", got, bytes(p.pduData), bytes(pdu.pduData))
+
+
 def judge_reuse(fa, fb, payload):
     problems = {}
     ha, hb = ref.build_header(fa), ref.build_header(fb)
+    if fa["type"] == fb["type"]:
+        carries = ref.CARRIES_DATA[fb["type"]]
+        pa = (payload + b"\x5A\xA5") if carries else b""
+        pb = payload if carries else b""
+        r = reuse_decode_typed(ha + pa, hb + pb)
+        if r[0] == "raises":
+            problems.setdefault(("reuse", "typed:raises-" + r[1]), []).append("typed")
+        else:
+            for bad in field_problems(fb, r[1]):
+                if not bad.endswith("-set-although-not-in-this-header"):
+                    problems.setdefault(("reuse", "second-decode-into-the-same-object:" + bad), []).append("typed")
+            if r[2] != pb:
+                problems.setdefault(("reuse", "second-decode-into-the-same-object:payload-differs"), []).append("typed")
+            if r[3] != hb + pb:
+                problems.setdefault(("reuse", "re-encoding-after-second-decode-differs"), []).append("typed")
     for path in ("APCI", "APDU"):
         pl = payload if (path == "APDU" and ref.CARRIES_DATA[fb["type"]]) else b""
         pla = payload if (path == "APDU" and ref.CARRIES_DATA[fa["type"]]) else b""
